@@ -703,18 +703,36 @@ def local_none(ctx, R, reach):
         f = P.funcs.get(q)
         if f is None or f.is_lambda:
             continue
+        def pairs(stn):
+            """(name, value) pairs of an assignment statement: `a = x` and `a, b = x, y`."""
+            out = []
+            if isinstance(stn, ast.Assign):
+                for t in stn.targets:
+                    if isinstance(t, ast.Name):
+                        out.append((t.id, stn.value))
+                    elif isinstance(t, (ast.Tuple, ast.List)) and isinstance(stn.value, (ast.Tuple, ast.List)) and len(t.elts) == len(stn.value.elts) and all(isinstance(x, ast.Name) for x in t.elts):
+                        out.extend((x.id, v_) for x, v_ in zip(t.elts, stn.value.elts))
+                    else:
+                        for x in ast.walk(t):
+                            if isinstance(x, ast.Name) and isinstance(x.ctx, ast.Store):
+                                out.append((x.id, None))
+            return out
+
+        def isnone(v_):
+            return isinstance(v_, ast.Constant) and v_.value is None
+
         none_asg = {}
         for nd in walk_local(f.node):
-            if isinstance(nd, ast.Assign) and isinstance(nd.value, ast.Constant) and nd.value.value is None:
-                for t in nd.targets:
-                    if isinstance(t, ast.Name):
-                        none_asg.setdefault(t.id, []).append(nd)
+            for nm, v_ in pairs(nd):
+                if v_ is not None and isnone(v_):
+                    none_asg.setdefault(nm, []).append(nd)
         names = {v for v in none_asg if v not in f.params}
         if not names:
             continue
         cfg = ctx.cfg(f)
         # witnesses: w -> (v, E0 text)
         witness = {}
+        all_assigns = [x for x in walk_local(f.node) if isinstance(x, ast.Assign)]
         for v in names:
             if len(none_asg[v]) != 1:
                 continue
@@ -724,19 +742,20 @@ def local_none(ctx, R, reach):
                     stmts = getattr(blk, fld, None)
                     if not isinstance(stmts, list):
                         continue
-                    sets_v = [s_ for s_ in stmts if isinstance(s_, ast.Assign) and any(isinstance(t, ast.Name) and t.id == v for t in s_.targets) and not (isinstance(s_.value, ast.Constant) and s_.value.value is None)]
+                    sets_v = [s_ for s_ in stmts if any(nm == v and v_ is not None and not isnone(v_) for nm, v_ in pairs(s_))]
                     if not sets_v:
                         continue
                     for s_ in stmts:
-                        if isinstance(s_, ast.Assign) and len(s_.targets) == 1 and isinstance(s_.targets[0], ast.Name) and s_.targets[0].id != v:
-                            w = s_.targets[0].id
-                            allw = [x for x in walk_local(f.node) if isinstance(x, ast.Assign) and any(isinstance(t, ast.Name) and t.id == w for t in x.targets)]
-                            inits = [x for x in allw if x not in stmts]
-                            if len(inits) == 1 and len(allw) == 2 and vnode is not None:
-                                inode = cfg.of_stmt.get(inits[0])
+                        for w, wv in pairs(s_):
+                            if w == v or wv is None:
+                                continue
+                            allw = [(x, wv2) for x in all_assigns for nm2, wv2 in pairs(x) if nm2 == w]
+                            inits = [(x, wv2) for x, wv2 in allw if x not in stmts]
+                            if len(inits) == 1 and len(allw) == 2 and vnode is not None and inits[0][1] is not None:
+                                inode = cfg.of_stmt.get(inits[0][0])
                                 snode = cfg.of_stmt.get(s_)
                                 if inode is not None and snode is not None and cfg.dominates(inode, snode) and cfg.dominates(vnode, snode):
-                                    witness[w] = (v, ntext(inits[0].value))
+                                    witness[w] = (v, ntext(inits[0][1]))
         IN = {n: set(names) for n in cfg.nodes}
         IN[cfg.entry] = set(names)  # an unassigned local cannot be None (it would be unbound: GEN.DEFINED)
 
@@ -763,18 +782,21 @@ def local_none(ctx, R, reach):
         def edge_out(n, m):
             s_ = set(IN[n])
             a = n.ast
-            if n.kind == "stmt" and isinstance(a, (ast.Assign, ast.AugAssign, ast.AnnAssign)):
-                tg = a.targets if isinstance(a, ast.Assign) else [a.target]
-                for t in tg:
-                    for x in ast.walk(t):
-                        if isinstance(x, ast.Name) and isinstance(x.ctx, ast.Store) and x.id in names:
-                            val = a.value
-                            if isinstance(val, ast.Constant) and val.value is None:
-                                s_.discard(x.id)
-                            elif isinstance(val, ast.Name) and val.id in names and val.id not in s_:
-                                s_.discard(x.id)
-                            else:
-                                s_.add(x.id)
+            if n.kind == "stmt" and isinstance(a, ast.Assign):
+                before = set(s_)
+                for nm, val in pairs(a):
+                    if nm not in names:
+                        continue
+                    if val is not None and isnone(val):
+                        s_.discard(nm)
+                    elif isinstance(val, ast.Name) and val.id in names and val.id not in before:
+                        s_.discard(nm)
+                    else:
+                        s_.add(nm)
+            elif n.kind == "stmt" and isinstance(a, (ast.AugAssign, ast.AnnAssign)):
+                for x in ast.walk(a.target):
+                    if isinstance(x, ast.Name) and isinstance(x.ctx, ast.Store) and x.id in names:
+                        s_.add(x.id)
             if n.kind in ("for", "forassign") and a is not None:
                 tgt = getattr(a, "target", None)
                 if tgt is not None:
